@@ -21,7 +21,7 @@ ASSUMPTIONS = [
     "the lattice plug-in engine stands in for an MD engine",
 ]
 MUST_REACH = ["prep_md_items", "treat_output"]
-JOB_TIMEOUT = 1500
+JOB_TIMEOUT = 2700
 
 
 def plan(tier, seed):
